@@ -646,6 +646,11 @@ fn main() {
             Ok(s) => out.push_str(&format!("{} {}\n", i + 1, s)),
             Err(e) => {
                 let msg = e.downcast_ref::<String>().cloned().or_else(|| e.downcast_ref::<&str>().map(|s| s.to_string())).unwrap_or_default();
+                if let Some(v) = msg.strip_prefix("SCRIPT: unknown path var ") {
+                    // a variable that an earlier failed line never defined (the engine prints the same)
+                    out.push_str(&format!("{} novar:{}\n", i + 1, v));
+                    continue;
+                }
                 if msg.starts_with("SCRIPT:") { eprintln!("line {}: {}", i + 1, msg); std::process::exit(3); }
                 out.push_str(&format!("{} panic\n", i + 1));
             }
